@@ -27,34 +27,39 @@ def _uses(ob, name):
     return name in txt
 
 
+Z3_CLI = os.environ.get("PYVC_Z3", "z3-new")
+SCHEDULE = ((0, 4), (7, 6), (42, 12), (1234, 25))     # (random seed, hard wall-clock seconds)
+
+
 def _run(args):
+    """one obligation: z3 CLI in a subprocess (hard timeout), escalating schedule of seeds/budgets"""
     idx, smt, timeout_ms, seeds = args
     t0 = time.time()
-    last = "unknown"
-    reason = ""
-    for k, seed in enumerate(seeds):
-        s = z3.Solver()
-        s.set("timeout", timeout_ms)
-        if seed:
-            s.set("random_seed", seed)
-            z3.set_param("smt.random_seed", seed)
-        try:
-            s.from_string(smt)
-            r = s.check()
-        except z3.Z3Exception as e:   # pragma: no cover
-            return idx, "error", str(e), (time.time() - t0) * 1000, "z3-5.1"
-        if r == z3.unsat:
-            return idx, "unsat", "", (time.time() - t0) * 1000, "z3-5.1" + (f"(seed {seed})" if seed else "")
-        if r == z3.sat:
+    sched = SCHEDULE if len(seeds) > 1 else ((0, max(1, timeout_ms // 1000)),)
+    fd, path = tempfile.mkstemp(suffix=".smt2", prefix="pyvc_")
+    with os.fdopen(fd, "w") as f:
+        f.write(smt)
+    last, info = "unknown", ""
+    try:
+        for seed, secs in sched:
+            cmd = [Z3_CLI, f"-T:{secs}", f"smt.random_seed={seed}", f"sat.random_seed={seed}", path]
             try:
-                m = s.model()
-                txt = "\n".join(f"{d.name()} = {m[d]}" for d in m.decls() if d.arity() == 0)[:6000]
-            except Exception:
-                txt = ""
-            return idx, "sat", txt, (time.time() - t0) * 1000, "z3-5.1"
-        last = "unknown"
-        reason = s.reason_unknown()
-    return idx, last, reason, (time.time() - t0) * 1000, "z3-5.1"
+                out = subprocess.run(cmd, capture_output=True, text=True, timeout=secs + 5).stdout
+            except subprocess.TimeoutExpired:
+                out = "timeout"
+            first = out.strip().splitlines()[0].strip() if out.strip() else "unknown"
+            if first == "unsat":
+                return idx, "unsat", "", (time.time() - t0) * 1000, "z3-5.1" + (f"(seed {seed})" if seed else "")
+            if first == "sat":
+                try:
+                    m = subprocess.run([Z3_CLI, f"-T:{secs}", "-model", path], capture_output=True, text=True, timeout=secs + 5).stdout
+                except subprocess.TimeoutExpired:
+                    m = ""
+                return idx, "sat", m[:6000], (time.time() - t0) * 1000, "z3-5.1"
+            last, info = "unknown", first
+    finally:
+        os.unlink(path)
+    return idx, last, info, (time.time() - t0) * 1000, "z3-5.1"
 
 
 def _cvc5(smt, timeout_s=20):
@@ -105,8 +110,9 @@ def discharge(obls, workers=None, timeout_ms=None, second_backend=False):
             todo.append((i, smt, timeout_ms, (0, 7, 42)))
     if todo:
         if workers > 1 and len(todo) > 1:
-            with mp.get_context("fork").Pool(min(workers, len(todo))) as pool:
-                results = pool.map(_run, todo, chunksize=1)
+            from concurrent.futures import ThreadPoolExecutor
+            with ThreadPoolExecutor(max_workers=min(workers, len(todo))) as pool:
+                results = list(pool.map(_run, todo))
         else:
             results = [_run(t) for t in todo]
         for idx, status, info, ms, backend in results:
